@@ -278,6 +278,151 @@ pub open spec fn event_xml(e: TelemetryEvent) -> Seq<char> {
     + EVENT_CLOSE()
 }
 
+
+// ---- (A'') the CDATA section of an event cannot be closed early, whatever the event contains ------------------
+/// a '>' is never the first character and never directly follows a ']' (so no `]]>` can be completed, even across pieces)
+pub open spec fn no_gt_after_bracket(s: Seq<char>) -> bool {
+    forall|i: int| 0 <= i < s.len() && #[trigger] s[i] == '>' ==> i >= 1 && s[i - 1] != ']'
+}
+proof fn lemma_ngb_concat(a: Seq<char>, b: Seq<char>)
+    requires no_gt_after_bracket(a), no_gt_after_bracket(b)
+    ensures no_gt_after_bracket(a + b)
+{
+    assert forall|i: int| 0 <= i < (a + b).len() && #[trigger] (a + b)[i] == '>' implies i >= 1 && (a + b)[i - 1] != ']' by {
+        if i < a.len() { assert(a[i] == '>'); assert((a + b)[i - 1] == a[i - 1]); }
+        else { let j = i - a.len(); assert(b[j] == '>'); assert(j >= 1); assert((a + b)[i - 1] == b[j - 1]); }
+    }
+}
+proof fn lemma_ngb_no_gt(s: Seq<char>)
+    requires !occurs(s, '>')
+    ensures no_gt_after_bracket(s)
+{
+    assert forall|i: int| 0 <= i < s.len() && #[trigger] s[i] == '>' implies i >= 1 && s[i - 1] != ']' by { assert(occurs(s, '>')); }
+}
+proof fn lemma_wstr_ngb(pre: Seq<char>, text: Seq<char>)
+    requires !occurs(pre, '>')
+    ensures no_gt_after_bracket(wstr(pre, text))
+{
+    lemma_ngb_no_gt(pre);
+    lemma_esc_markup_free(text);
+    lemma_ngb_no_gt(esc(text));
+    reveal_strlit("\" T=\"mt:wstr\" />");
+    assert(no_gt_after_bracket(WSTR_END()));
+    lemma_ngb_concat(pre, esc(text));
+    lemma_ngb_concat(pre + esc(text), WSTR_END());
+}
+proof fn lemma_u64p_ngb(pre: Seq<char>, n: u64)
+    requires !occurs(pre, '>')
+    ensures no_gt_after_bracket(u64p(pre, n))
+{
+    broadcast use axiom_dec_u64_digits;
+    lemma_ngb_no_gt(pre);
+    assert(!occurs(dec_u64(n), '>'));
+    lemma_ngb_no_gt(dec_u64(n));
+    reveal_strlit("\" T=\"mt:uint64\" />");
+    assert(no_gt_after_bracket(U64_END()));
+    lemma_ngb_concat(pre, dec_u64(n));
+    lemma_ngb_concat(pre + dec_u64(n), U64_END());
+}
+/// none of the 23 fixed `<Param Name=".." Value="` openers contains a '>'
+proof fn lits_param_openers()
+    ensures
+        !occurs("<Param Name=\"OpcodeName\" Value=\""@, '>'),
+        !occurs("<Param Name=\"KeywordName\" Value=\""@, '>'),
+        !occurs("<Param Name=\"TaskName\" Value=\""@, '>'),
+        !occurs("<Param Name=\"TenantName\" Value=\""@, '>'),
+        !occurs("<Param Name=\"RoleName\" Value=\""@, '>'),
+        !occurs("<Param Name=\"RoleInstanceName\" Value=\""@, '>'),
+        !occurs("<Param Name=\"ContainerId\" Value=\""@, '>'),
+        !occurs("<Param Name=\"ResourceGroupName\" Value=\""@, '>'),
+        !occurs("<Param Name=\"SubscriptionId\" Value=\""@, '>'),
+        !occurs("<Param Name=\"VMId\" Value=\""@, '>'),
+        !occurs("<Param Name=\"EventPid\" Value=\""@, '>'),
+        !occurs("<Param Name=\"EventTid\" Value=\""@, '>'),
+        !occurs("<Param Name=\"ImageOrigin\" Value=\""@, '>'),
+        !occurs("<Param Name=\"ExecutionMode\" Value=\""@, '>'),
+        !occurs("<Param Name=\"OSVersion\" Value=\""@, '>'),
+        !occurs("<Param Name=\"GAVersion\" Value=\""@, '>'),
+        !occurs("<Param Name=\"RAM\" Value=\""@, '>'),
+        !occurs("<Param Name=\"Processors\" Value=\""@, '>'),
+        !occurs("<Param Name=\"EventName\" Value=\""@, '>'),
+        !occurs("<Param Name=\"CapabilityUsed\" Value=\""@, '>'),
+        !occurs("<Param Name=\"Context1\" Value=\""@, '>'),
+        !occurs("<Param Name=\"Context2\" Value=\""@, '>'),
+        !occurs("<Param Name=\"Context3\" Value=\""@, '>'),
+{
+    reveal_strlit("<Param Name=\"OpcodeName\" Value=\"");
+    reveal_strlit("<Param Name=\"KeywordName\" Value=\"");
+    reveal_strlit("<Param Name=\"TaskName\" Value=\"");
+    reveal_strlit("<Param Name=\"TenantName\" Value=\"");
+    reveal_strlit("<Param Name=\"RoleName\" Value=\"");
+    reveal_strlit("<Param Name=\"RoleInstanceName\" Value=\"");
+    reveal_strlit("<Param Name=\"ContainerId\" Value=\"");
+    reveal_strlit("<Param Name=\"ResourceGroupName\" Value=\"");
+    reveal_strlit("<Param Name=\"SubscriptionId\" Value=\"");
+    reveal_strlit("<Param Name=\"VMId\" Value=\"");
+    reveal_strlit("<Param Name=\"EventPid\" Value=\"");
+    reveal_strlit("<Param Name=\"EventTid\" Value=\"");
+    reveal_strlit("<Param Name=\"ImageOrigin\" Value=\"");
+    reveal_strlit("<Param Name=\"ExecutionMode\" Value=\"");
+    reveal_strlit("<Param Name=\"OSVersion\" Value=\"");
+    reveal_strlit("<Param Name=\"GAVersion\" Value=\"");
+    reveal_strlit("<Param Name=\"RAM\" Value=\"");
+    reveal_strlit("<Param Name=\"Processors\" Value=\"");
+    reveal_strlit("<Param Name=\"EventName\" Value=\"");
+    reveal_strlit("<Param Name=\"CapabilityUsed\" Value=\"");
+    reveal_strlit("<Param Name=\"Context1\" Value=\"");
+    reveal_strlit("<Param Name=\"Context2\" Value=\"");
+    reveal_strlit("<Param Name=\"Context3\" Value=\"");
+}
+/// (A4) The only `]]>` in the XML text of an event is the one that closes its CDATA section: no event content
+/// (message text, names, versions, numbers) can end the section early.
+pub proof fn lemma_event_cdata_closed_only_at_end(e: TelemetryEvent)
+    ensures
+        event_xml(e).len() >= EVENT_CLOSE().len(),
+        forall|i: int| cdata_end_at(event_xml(e), i) ==> i == event_xml(e).len() - EVENT_CLOSE().len(),  // @C18.lemma.event_cdata_section_cannot_be_closed_early
+{
+    reveal(event_xml);
+    lits_param_openers();
+    reveal_strlit("<Event id=\"7\"><![CDATA[");
+    reveal_strlit("]]></Event>");
+    assert(no_gt_after_bracket(EVENT_OPEN()));
+    lemma_ngb_no_gt(Seq::<char>::empty());
+    let a0 = Seq::<char>::empty() + EVENT_OPEN();
+    lemma_ngb_concat(Seq::<char>::empty(), EVENT_OPEN());
+    let p1 = wstr("<Param Name=\"OpcodeName\" Value=\""@, e.opcode_name@); lemma_wstr_ngb("<Param Name=\"OpcodeName\" Value=\""@, e.opcode_name@); let a1 = a0 + p1; lemma_ngb_concat(a0, p1);
+    let p2 = wstr("<Param Name=\"KeywordName\" Value=\""@, e.keyword_name@); lemma_wstr_ngb("<Param Name=\"KeywordName\" Value=\""@, e.keyword_name@); let a2 = a1 + p2; lemma_ngb_concat(a1, p2);
+    let p3 = wstr("<Param Name=\"TaskName\" Value=\""@, e.task_name@); lemma_wstr_ngb("<Param Name=\"TaskName\" Value=\""@, e.task_name@); let a3 = a2 + p3; lemma_ngb_concat(a2, p3);
+    let p4 = wstr("<Param Name=\"TenantName\" Value=\""@, e.tenant_name@); lemma_wstr_ngb("<Param Name=\"TenantName\" Value=\""@, e.tenant_name@); let a4 = a3 + p4; lemma_ngb_concat(a3, p4);
+    let p5 = wstr("<Param Name=\"RoleName\" Value=\""@, e.role_name@); lemma_wstr_ngb("<Param Name=\"RoleName\" Value=\""@, e.role_name@); let a5 = a4 + p5; lemma_ngb_concat(a4, p5);
+    let p6 = wstr("<Param Name=\"RoleInstanceName\" Value=\""@, e.role_instance_name@); lemma_wstr_ngb("<Param Name=\"RoleInstanceName\" Value=\""@, e.role_instance_name@); let a6 = a5 + p6; lemma_ngb_concat(a5, p6);
+    let p7 = wstr("<Param Name=\"ContainerId\" Value=\""@, e.container_id@); lemma_wstr_ngb("<Param Name=\"ContainerId\" Value=\""@, e.container_id@); let a7 = a6 + p7; lemma_ngb_concat(a6, p7);
+    let p8 = wstr("<Param Name=\"ResourceGroupName\" Value=\""@, e.resource_group_name@); lemma_wstr_ngb("<Param Name=\"ResourceGroupName\" Value=\""@, e.resource_group_name@); let a8 = a7 + p8; lemma_ngb_concat(a7, p8);
+    let p9 = wstr("<Param Name=\"SubscriptionId\" Value=\""@, e.subscription_id@); lemma_wstr_ngb("<Param Name=\"SubscriptionId\" Value=\""@, e.subscription_id@); let a9 = a8 + p9; lemma_ngb_concat(a8, p9);
+    let p10 = wstr("<Param Name=\"VMId\" Value=\""@, e.vm_id@); lemma_wstr_ngb("<Param Name=\"VMId\" Value=\""@, e.vm_id@); let a10 = a9 + p10; lemma_ngb_concat(a9, p10);
+    let p11 = u64p("<Param Name=\"EventPid\" Value=\""@, e.event_pid); lemma_u64p_ngb("<Param Name=\"EventPid\" Value=\""@, e.event_pid); let a11 = a10 + p11; lemma_ngb_concat(a10, p11);
+    let p12 = u64p("<Param Name=\"EventTid\" Value=\""@, e.event_tid); lemma_u64p_ngb("<Param Name=\"EventTid\" Value=\""@, e.event_tid); let a12 = a11 + p12; lemma_ngb_concat(a11, p12);
+    let p13 = u64p("<Param Name=\"ImageOrigin\" Value=\""@, e.image_origin); lemma_u64p_ngb("<Param Name=\"ImageOrigin\" Value=\""@, e.image_origin); let a13 = a12 + p13; lemma_ngb_concat(a12, p13);
+    let p14 = wstr("<Param Name=\"ExecutionMode\" Value=\""@, e.execution_mode@); lemma_wstr_ngb("<Param Name=\"ExecutionMode\" Value=\""@, e.execution_mode@); let a14 = a13 + p14; lemma_ngb_concat(a13, p14);
+    let p15 = wstr("<Param Name=\"OSVersion\" Value=\""@, e.os_version@); lemma_wstr_ngb("<Param Name=\"OSVersion\" Value=\""@, e.os_version@); let a15 = a14 + p15; lemma_ngb_concat(a14, p15);
+    let p16 = wstr("<Param Name=\"GAVersion\" Value=\""@, e.ga_version@); lemma_wstr_ngb("<Param Name=\"GAVersion\" Value=\""@, e.ga_version@); let a16 = a15 + p16; lemma_ngb_concat(a15, p16);
+    let p17 = u64p("<Param Name=\"RAM\" Value=\""@, e.ram); lemma_u64p_ngb("<Param Name=\"RAM\" Value=\""@, e.ram); let a17 = a16 + p17; lemma_ngb_concat(a16, p17);
+    let p18 = u64p("<Param Name=\"Processors\" Value=\""@, e.processors); lemma_u64p_ngb("<Param Name=\"Processors\" Value=\""@, e.processors); let a18 = a17 + p18; lemma_ngb_concat(a17, p18);
+    let p19 = wstr("<Param Name=\"EventName\" Value=\""@, e.event_name@); lemma_wstr_ngb("<Param Name=\"EventName\" Value=\""@, e.event_name@); let a19 = a18 + p19; lemma_ngb_concat(a18, p19);
+    let p20 = wstr("<Param Name=\"CapabilityUsed\" Value=\""@, e.capability_used@); lemma_wstr_ngb("<Param Name=\"CapabilityUsed\" Value=\""@, e.capability_used@); let a20 = a19 + p20; lemma_ngb_concat(a19, p20);
+    let p21 = wstr("<Param Name=\"Context1\" Value=\""@, e.context1@); lemma_wstr_ngb("<Param Name=\"Context1\" Value=\""@, e.context1@); let a21 = a20 + p21; lemma_ngb_concat(a20, p21);
+    let p22 = wstr("<Param Name=\"Context2\" Value=\""@, e.context2@); lemma_wstr_ngb("<Param Name=\"Context2\" Value=\""@, e.context2@); let a22 = a21 + p22; lemma_ngb_concat(a21, p22);
+    let p23 = wstr("<Param Name=\"Context3\" Value=\""@, e.context3@); lemma_wstr_ngb("<Param Name=\"Context3\" Value=\""@, e.context3@); let a23 = a22 + p23; lemma_ngb_concat(a22, p23);
+    let acc = a23;
+    let c = EVENT_CLOSE();
+    assert(event_xml(e) == acc + c);
+    assert forall|i: int| cdata_end_at(acc + c, i) implies i == acc.len() by {
+        let p = i + 2;
+        if p < acc.len() { assert(acc[p] == '>'); assert(acc[p - 1] == (acc + c)[i + 1]); }
+        else { let j = p - acc.len(); assert(c[j] == '>'); assert(j == 2 || j == 10); if j == 10 { assert((acc + c)[i + 1] == c[9]); } }
+    }
+}
+
 // ------------------------------------------------------------------------------------------------
 // (B) the document handed to the host for a batch (view of TelemetryData = Seq<TelemetryEvent>)
 // ------------------------------------------------------------------------------------------------
